@@ -272,6 +272,192 @@ Example C18_example_task_nonvacuous :
   = [[]; []; []; [TCb 2 true]; []; []; [TCb 1 false; TCloseRet (Some 2)]].
 Proof. vm_compute. intuition; discriminate. Qed.
 
+(** ---- tie of the asyncio-task half to the source (DoneCb/TaskTie.v).
+    translate/taskdone_funs.py regenerates Gen/TaskDoneFuns.v on every run: every method of
+    TaskDoneCallback (task.py), ThreadTaskDoneCallback (union.py), ExcThread (thread_exception.py) and
+    current_task_or_thread (aio.py) as a statement AST (DoneCb/TaskSyntax.v).  DoneCb/TaskInterp.v
+    interprets the regenerated bodies (method lookup by name, frames, `time.sleep` as the suspension
+    point of the close methods, asyncio's add_done_callback / call_soon as primitives) under a driver
+    with the operations of DoneCb/Task.v.  [u] = false: TaskDoneCallback, true: ThreadTaskDoneCallback;
+    [m]: close / aclose / __exit__ / __aexit__; [cur]: who calls the close method (no loop / a loop but
+    no task / task t); [thr_exc]: how the (primitive) thread helper's close() ends;
+    [op_ok cur o]: the task that calls the close method is not the one being registered. *)
+From NL Require Import DoneCb.TaskInterp DoneCb.TaskTie.
+
+(** step equality: for EVERY well-formed state and EVERY operation one step of the interpreter on the
+    regenerated bodies yields the model's next state and the model's events, and stays well-formed *)
+Theorem C18_tie_task_step : forall raises cur cur_thread thr_exc u m st k o,
+  (needs_loop m = true -> cur <> NoLoop) ->
+  WF raises cur cur_thread thr_exc None u (st, k) -> op_ok cur o ->
+  let r := step_of raises cur cur_thread thr_exc u m (st, k) o in
+  let mo := tstep raises (abs (st, k)) o in
+  WF raises cur cur_thread thr_exc None u (fst r) /\ abs (fst r) = fst mo
+  /\ snd r = flat_map (evmap thr_exc u) (snd mo).
+Proof. exact tie_task_step. Qed.
+
+Theorem C18_tie_task_wf_reachable : forall raises cur cur_thread thr_exc u m os,
+  (needs_loop m = true -> cur <> NoLoop) -> Forall (op_ok cur) os ->
+  WF raises cur cur_thread thr_exc None u (final_of raises cur cur_thread thr_exc u m os).
+Proof. exact tie_task_wf_reachable. Qed.
+
+(** whole histories: for ALL operation sequences (every completion order, any number of tasks,
+    re-registrations and unregistered tasks included) outputs and final state = DoneCb/Task.v *)
+Theorem C18_tie_task_outputs : forall raises cur cur_thread thr_exc u m os,
+  (needs_loop m = true -> cur <> NoLoop) -> Forall (op_ok cur) os ->
+  outs_of raises cur cur_thread thr_exc u m os = map (flat_map (evmap thr_exc u)) (touts raises os)
+  /\ abs (final_of raises cur cur_thread thr_exc u m os) = trun raises os.
+Proof. exact tie_task_outputs. Qed.
+
+(** C18_task_exactly_once OF THE REGENERATED CODE (either helper, any of the four close methods) *)
+Theorem C18_tie_task_exactly_once : forall raises cur cur_thread thr_exc u m os,
+  (needs_loop m = true -> cur <> NoLoop) -> Forall (op_ok cur) os -> twf os ->
+  NoDup (icalled (outs_of raises cur cur_thread thr_exc u m os)) /\
+  forall t, In t (icalled (outs_of raises cur cur_thread thr_exc u m os)) <-> In (TReg t) os /\ In (TComplete t) os.
+Proof. exact tie_task_exactly_once. Qed.
+
+(** C18_task_close_waits OF THE REGENERATED CODE: a callback only in the step in which its task ends;
+    the close method ends only when every task registered so far has ended and been called back, with
+    the FIRST callback exception (for the union: the thread helper's close() is invoked in that very step,
+    on every path, and its exception, if any, takes precedence) *)
+Theorem C18_tie_task_close_waits : forall raises cur cur_thread thr_exc u m os,
+  (needs_loop m = true -> cur <> NoLoop) -> Forall (op_ok cur) os -> twf os ->
+  isteps_ok thr_exc u [] [] [] os (outs_of raises cur cur_thread thr_exc u m os).
+Proof. exact tie_task_close_waits. Qed.
+
+(** the close method never ends with an exception of the helper's own making: the thread helper's
+    exception (union), else that of a task callback, else a normal return *)
+Theorem C18_tie_task_close_result : forall raises cur cur_thread thr_exc u m os e,
+  (needs_loop m = true -> cur <> NoLoop) -> Forall (op_ok cur) os ->
+  In (ICloseRet e) (List.concat (outs_of raises cur cur_thread thr_exc u m os)) ->
+  match (if u then thr_exc else None) with
+  | Some y => e = Some y
+  | None => (exists t, e = Some (PXCb t)) \/ e = None
+  end.
+Proof. exact tie_task_close_result. Qed.
+
+(** the guard: called from a registered task every close method of TaskDoneCallback raises RuntimeError
+    at once and nothing else happens ... *)
+Theorem C18_tie_task_guard : forall raises cur_thread thr_exc m st t,
+  mem t (i_active st) = true ->
+  invoke raises true (InTask t) cur_thread thr_exc None (PVMeth ObTask (close_name m)) (close_args m) st
+  = (st, QRaise PXRuntime).
+Proof. exact tie_task_guard. Qed.
+
+(** ... and of the union: the same RuntimeError, through the `finally` -- the thread helper is closed
+    first (its exception, if any, replaces the RuntimeError) *)
+Theorem C18_tie_task_union_guard : forall raises cur_thread thr_exc m st t,
+  mem t (i_active st) = true ->
+  invoke raises true (InTask t) cur_thread thr_exc None (PVMeth ObUnion (close_name m)) (close_args m) st
+  = (add_log (with_thr st (i_thr_reg st) true) IThrClose,
+     match thr_exc with Some y => QRaise y | None => QRaise PXRuntime end).
+Proof. exact tie_union_guard. Qed.
+
+(** the union's dispatch *)
+Theorem C18_tie_task_union_register_task : forall raises cur cur_thread thr_exc st t,
+  invoke raises true cur cur_thread thr_exc None (PVMeth ObUnion "register"%string) [PVTask t] st
+  = invoke raises true cur cur_thread thr_exc None (PVMeth ObTask "register"%string) [PVTask t] st
+  /\ i_thr_reg (fst (invoke raises true cur cur_thread thr_exc None (PVMeth ObUnion "register"%string) [PVTask t] st))
+     = i_thr_reg st.
+Proof. exact tie_union_register_task. Qed.
+
+Theorem C18_tie_task_union_register_thread : forall raises cur cur_thread thr_exc st v,
+  invoke raises true cur cur_thread thr_exc None (PVMeth ObUnion "register"%string) [PVThread v] st
+  = (with_thr st (i_thr_reg st ++ [v]) (i_thr_closed st), QNormal).
+Proof. exact tie_union_register_thread. Qed.
+
+Theorem C18_tie_task_union_register_default : forall raises cur cur_thread thr_exc st,
+  invoke raises true cur cur_thread thr_exc None (PVMeth ObUnion "register"%string) [] st
+  = match cur with
+    | InTask t => invoke raises true cur cur_thread thr_exc None (PVMeth ObTask "register"%string) [PVTask t] st
+    | _ => (with_thr st (i_thr_reg st ++ [cur_thread]) (i_thr_closed st), QNormal)
+    end.
+Proof. exact tie_union_register_default. Qed.
+
+(** the union's close methods once every registered task has ended
+    (`try: <task helper close> finally: <thread helper close>`) *)
+Theorem C18_tie_task_union_close_outcome : forall raises cur cur_thread thr_exc m st,
+  (needs_loop m = true -> cur <> NoLoop) -> cur_ok cur st -> i_active st = [] ->
+  invoke raises true cur cur_thread thr_exc None (PVMeth ObUnion (close_name m)) (close_args m) st
+  = (add_log (with_thr st (i_thr_reg st) true) IThrClose,
+     match thr_exc with
+     | Some y => QRaise y
+     | None => match i_excs st with x :: _ => QRaise x | [] => QNormal end
+     end).
+Proof. exact tie_union_close_outcome. Qed.
+
+(** it raises IFF one of the helpers raised *)
+Theorem C18_tie_task_union_close_reraises : forall raises cur cur_thread thr_exc m st,
+  (needs_loop m = true -> cur <> NoLoop) -> cur_ok cur st -> i_active st = [] ->
+  ((exists x, snd (invoke raises true cur cur_thread thr_exc None (PVMeth ObUnion (close_name m)) (close_args m) st)
+              = QRaise x)
+   <-> (i_excs st <> [] \/ thr_exc <> None))
+  /\ (snd (invoke raises true cur cur_thread thr_exc None (PVMeth ObUnion (close_name m)) (close_args m) st) = QNormal
+      <-> (i_excs st = [] /\ thr_exc = None)).
+Proof. exact tie_union_close_reraises. Qed.
+
+(** "close closes both", IN FULL (the repaired union.py): every close method of the union closes BOTH
+    helpers on every path -- the thread helper's close() is invoked, once, whether or not a task callback
+    raised -- and it raises iff one of them raised: the thread helper's exception if it raised, else the
+    task helper's.  (Along whole histories: C18_tie_task_close_waits with u = true -- IThrClose in the
+    very step in which the close method ends.) *)
+Theorem C18_tie_task_union_close_both : forall raises cur cur_thread thr_exc m st,
+  (needs_loop m = true -> cur <> NoLoop) -> cur_ok cur st -> i_active st = [] ->
+  let r := invoke raises true cur cur_thread thr_exc None (PVMeth ObUnion (close_name m)) (close_args m) st in
+  i_thr_closed (fst r) = true
+  /\ i_log (fst r) = i_log st ++ [IThrClose]
+  /\ i_active (fst r) = [] /\ i_excs (fst r) = i_excs st
+  /\ snd r = match thr_exc, i_excs st with
+             | Some y, _ => QRaise y
+             | None, x :: _ => QRaise x
+             | None, [] => QNormal
+             end.
+Proof. exact tie_union_close_both. Qed.
+
+(** ExcThread: join() re-raises what run() caught *)
+Theorem C18_tie_task_excthread_join_reraises : forall raises cur cur_thread thr_exc target_exc st,
+  let st1 := fst (invoke raises true cur cur_thread thr_exc target_exc (PVMeth ObExcThread "run"%string) [] st) in
+  snd (invoke raises true cur cur_thread thr_exc target_exc (PVMeth ObExcThread "run"%string) [] st) = QNormal
+  /\ snd (invoke raises true cur cur_thread thr_exc target_exc (PVMeth ObExcThread "join"%string) [] st1)
+     = match target_exc with Some x => QRaise x | None => QNormal end.
+Proof. exact tie_excthread_join_reraises. Qed.
+
+(** the __init__ tables: the tracked attributes and their initial values; both helpers of the union get
+    the same `done` *)
+Theorem C18_tie_task_init : exists d,
+  task_init_params = [(d, Some ENone)] /\
+  forall f e, In (f, e) task_init <->
+    (f, e) = (FDone, EVar d) \/ (f, e) = (FActive, ENewSet) \/ (f, e) = (FExceptions, ENewList).
+Proof. exact tie_task_init. Qed.
+
+Theorem C18_tie_task_union_init : exists d i,
+  union_init_params = [(d, Some ENone); (i, Some EOpaque)] /\
+  forall f e, In (f, e) union_init <->
+    (f, e) = (FThreadCb, ENew "ThreadDoneCallback" [("done"%string, EVar d); ("interval"%string, EVar i)])
+    \/ (f, e) = (FTaskCb, ENew "TaskDoneCallback" [("done"%string, EVar d)]).
+Proof. exact tie_union_init. Qed.
+
+(** non-vacuity (interpreter on the regenerated bodies, by computation): the history of
+    C18_example_task_nonvacuous under TaskDoneCallback.close from a thread, TaskDoneCallback.__aexit__
+    from an unregistered task, the union's aclose with a thread-helper exception (re-raised), the
+    union's __exit__ with BOTH a task-callback and a thread-helper exception (the thread helper is closed,
+    its exception wins), with a task-callback exception only (thread helper closed, the task callback's
+    exception re-raised), and close from the registered task 1 (thread helper closed, RuntimeError) *)
+Example C18_tie_task_example_nonvacuous :
+  Forall (op_ok (InTask 7)) ex_os /\ twf ex_os
+  /\ outs_of (fun t => t =? 2) NoLoop 0 None false MClose ex_os
+     = [[]; []; []; [ICb 2 true]; []; []; [ICb 1 false; ICloseRet (Some (PXCb 2))]]
+  /\ outs_of (fun t => t =? 2) (InTask 7) 0 None false MAexit ex_os
+     = [[]; []; []; [ICb 2 true]; []; []; [ICb 1 false; ICloseRet (Some (PXCb 2))]]
+  /\ outs_of (fun _ => false) (InTask 7) 0 (Some (PXOther 5)) true MAclose ex_os
+     = [[]; []; []; [ICb 2 false]; []; []; [ICb 1 false; IThrClose; ICloseRet (Some (PXOther 5))]]
+  /\ outs_of (fun t => t =? 2) LoopNoTask 0 (Some (PXOther 5)) true MExit ex_os
+     = [[]; []; []; [ICb 2 true]; []; []; [ICb 1 false; IThrClose; ICloseRet (Some (PXOther 5))]]
+  /\ outs_of (fun t => t =? 2) LoopNoTask 0 None true MExit ex_os
+     = [[]; []; []; [ICb 2 true]; []; []; [ICb 1 false; IThrClose; ICloseRet (Some (PXCb 2))]]
+  /\ outs_of (fun _ => false) (InTask 1) 0 None true MClose ex_os
+     = [[]; []; []; [ICb 2 false]; [IThrClose; ICloseRet (Some PXRuntime)]; []; [ICb 1 false]].
+Proof. exact tie_task_example. Qed.
+
 Print Assumptions C18_skeleton_register.
 Print Assumptions C18_skeleton_close.
 Print Assumptions C18_skeleton_monitor.
@@ -302,3 +488,21 @@ Print Assumptions C18_example_former_witnesses.
 Print Assumptions C18_example_nonvacuous.
 Print Assumptions C18_example_raises.
 Print Assumptions C18_example_task_nonvacuous.
+Print Assumptions C18_tie_task_step.
+Print Assumptions C18_tie_task_wf_reachable.
+Print Assumptions C18_tie_task_outputs.
+Print Assumptions C18_tie_task_exactly_once.
+Print Assumptions C18_tie_task_close_waits.
+Print Assumptions C18_tie_task_close_result.
+Print Assumptions C18_tie_task_guard.
+Print Assumptions C18_tie_task_union_guard.
+Print Assumptions C18_tie_task_union_register_task.
+Print Assumptions C18_tie_task_union_register_thread.
+Print Assumptions C18_tie_task_union_register_default.
+Print Assumptions C18_tie_task_union_close_outcome.
+Print Assumptions C18_tie_task_union_close_reraises.
+Print Assumptions C18_tie_task_union_close_both.
+Print Assumptions C18_tie_task_excthread_join_reraises.
+Print Assumptions C18_tie_task_init.
+Print Assumptions C18_tie_task_union_init.
+Print Assumptions C18_tie_task_example_nonvacuous.
